@@ -156,6 +156,8 @@ def canon_value(v):
         return ['b', _hexs(v)]
     if t is bytearray:
         return ['x', _hexs(v)]
+    if t is memoryview:
+        return ['mv', _hexs(bytes(v))]
     if t is decimal.Decimal:
         return ['D', str(v)]
     if t is list:
